@@ -282,6 +282,44 @@ class Host:
         if name in self.FFI_BUFFERS or name in ("BN_bn2bin", "ECDSA_SIG_from_bytes"):
             self.ffi_checks.append((fk, name, probs))
 
+def run_ownership_paths(ctx):
+    """ECDSA_SIG_set0 transfers ownership of r and s to the signature object.  On every path after a successful set0 both
+    DetachablePointers must be detached before the function exits (otherwise their Drop frees memory the ECDSA_SIG also frees:
+    double free); on every path where set0 failed none may be detached (leak / use after free)."""
+    from interp import Interp
+    cr = ctx.crates["paseto_v3_aws_lc"]
+    n = 0
+    for k, f in cr.fns.items():
+        if not f.get("body") or not any(b["term"]["k"] == "call" and (b["term"].get("callee") or {}).get("path", "").endswith("::ECDSA_SIG_set0") for b in f["body"]["blocks"]):
+            continue
+        n += 1
+        res = Interp(ctx.world, inline=False).run(f)
+        probs = []
+        for r in res:
+            evs = [e for e in r.path.events if e["kind"] == "call"]
+            idx = next((i for i, e in enumerate(evs) if e["name"].endswith("::ECDSA_SIG_set0")), None)
+            if idx is None:
+                continue
+            if r.kind not in ("return", "diverge"):
+                probs.append(f"path after ECDSA_SIG_set0 ends as {r.kind}")
+                continue
+            news = sum(1 for e in evs[:idx] if "DetachablePointer" in e["name"] and e["name"].endswith("::new") or "DetachablePointer" in e["name"] and "::new::" in e["name"])
+            dets = sum(1 for e in evs[idx + 1:] if "DetachablePointer" in e["name"] and e["name"].endswith("::detach"))
+            status = None
+            for g in r.path.guards:
+                c = g["cond"]
+                if isinstance(c, tuple) and c and c[0] == "binop" and c[1] in ("Ne", "Eq") and "ECDSA_SIG_set0" in repr(c[2])[:300] and c[3] == ("int", 1) and isinstance(g["value"], int):
+                    status = (g["value"] == 0) if c[1] == "Ne" else (g["value"] == 1)
+            if status is None:
+                probs.append("a path continues after ECDSA_SIG_set0 without testing its status against 1")
+            elif status and dets < max(news, 2):
+                probs.append(f"a path leaves the function after a successful ECDSA_SIG_set0 with only {dets} of {max(news, 2)} operands detached (their Drop frees BIGNUMs the signature now owns: double free)")
+            elif not status and dets:
+                probs.append("detach() on a path where ECDSA_SIG_set0 failed")
+        ctx.add("R04.2", f"C04/lc-ownership/{qshort(k)}/detach-on-every-success-path", not probs, "; ".join(sorted(set(probs))), site_of(f))
+    if not n:
+        ctx.add("R04.2", "C04/lc-ownership/anchor", False, "no function calls ECDSA_SIG_set0 (anchor missing)")
+
 def syntactic_sites(f):
     out = []
     for bi, b in enumerate(f["body"]["blocks"]):
@@ -410,6 +448,7 @@ def run(ctx):
     for (fk, name), probs in sorted(seen.items()):
         ctx.add("R04.2", f"C04/ffi-buffer/{qshort(fk)}/{name}", not probs, "; ".join(sorted(set(probs))))
     run_r042(ctx, h)
+    run_ownership_paths(ctx)
     # ---- R04.3: the 49-byte invariant behind lc::compressed_pub_key's assertion (D5)
     k3 = ("paseto_v3_aws_lc", "lc::VerifyingKey::from_sec1_bytes")
     f3 = crates["paseto_v3_aws_lc"].fns.get(k3[1])
